@@ -59,7 +59,7 @@ LEAN = {"module": "Pygom.Props.C19",
                      "Pygom.C19.seed_table_complete", "Pygom.C19.test_seed_decision_table", "Pygom.C19.seeded_generators_reproducible",
                      "Pygom.C19.exp_rate_parameterisation", "Pygom.C19.gamma_rate_parameterisation", "Pygom.C19.norm_sd_parameterisation",
                      "Pygom.C19.nb2pmf_is_mass", "Pygom.C19.nb_mean_size_eq_np"]}
-BUDGET = {"quick": {"dpq": 120, "seed": 40, "arrays": 40, "seedhist": 160, "search": 300},
+BUDGET = {"quick": {"dpq": 120, "seed": 40, "arrays": 100, "seedhist": 400, "search": 300},
           "thorough": {"dpq": 8000, "seed": 2500, "arrays": 2500, "seedhist": 8000, "search": 2500}}
 RULE = ("per family in {exp, gamma, norm, chisq, unif, beta, pois, binom, nbinom}: random valid parameters (rates / sds away from 1), "
         "6 arguments in the support and 4 probabilities in (0.01, 0.99), log in {False, True}, nbinom by prob and by mu, both tails; "
@@ -815,17 +815,6 @@ def _arrays_case(r, fam):
             "scribble": r.random() < 0.3}
 
 
-def _discrete_quantile(fam, p, target):
-    k, c = 0, ref_cdf(fam, p, 0)
-    while c < target and k < 100000:
-        k += 1
-        c += ref_pdf(fam, p, k)
-    below = c - ref_pdf(fam, p, k)
-    if abs(c - target) < 1e-7 or abs(below - target) < 1e-7:
-        return None                               # within rounding of a jump: either neighbour is acceptable
-    return k
-
-
 def _run_arrays(case):
     from pygom.utilR import distn
     mpmath.mp.dps = 30
@@ -840,24 +829,58 @@ def _run_arrays(case):
             seen.add(sig)
             viol.append({"what": what, "signature": sig, "detail": detail})
 
-    memo = {}
+    memo, base, tabs_d = {}, {}, {}
+
+    def discrete_table(pi, upto):
+        """mass and cumulative mass 0..upto of parameter set pi (closed form, computed once per session)"""
+        t = tabs_d.setdefault(pi, {"pdf": [], "cdf": []})
+        while len(t["pdf"]) <= upto:
+            j = len(t["pdf"])
+            v = ref_pdf(fam, psets[pi], j)
+            t["pdf"].append(v)
+            t["cdf"].append(v + (t["cdf"][-1] if t["cdf"] else mpmath.mpf(0)))
+        return t
+
+    def pdf_cdf(pi, x):
+        key = (pi, x)
+        if key not in base:
+            if fam in DISCRETE:
+                k = int(math.floor(x))
+                t = discrete_table(pi, max(k, 0))
+                base[key] = (ref_pdf(fam, psets[pi], x), t["cdf"][k] if k >= 0 else mpmath.mpf(0))
+            else:
+                base[key] = (ref_pdf(fam, psets[pi], x), ref_cdf(fam, psets[pi], x))
+        return base[key]
+
+    def discrete_quantile(pi, target):
+        k = 0
+        while True:
+            t = discrete_table(pi, k)
+            if t["cdf"][k] >= target or k >= 100000:
+                break
+            k += 1
+        c = t["cdf"][k]
+        below = c - t["pdf"][k]
+        if abs(c - target) < 1e-7 or abs(below - target) < 1e-7:
+            return None                           # within rounding of a jump: either neighbour is acceptable
+        return k
 
     def expected(fn, log, si, pi, i):
         """closed-form value for element i (None = not judged; ('cdf', u) = judged through the closed-form cdf)"""
         key = (fn, log, si, pi, i)
         if key not in memo:
-            p = psets[pi]
             if fn == "q":
                 u = case["us"][si][i]
-                memo[key] = ("inverse", _discrete_quantile(fam, p, u)) if fam in DISCRETE else ("cdf", u)
+                memo[key] = ("inverse", discrete_quantile(pi, u)) if fam in DISCRETE else ("cdf", u)
             else:
-                x = case["xs"][si][i]
-                if fn in ("d", "gms"):
-                    v = ref_pdf(fam, p, x)
-                    memo[key] = None if v <= 0 else ("value", float(mpmath.log(v) if log else v))
+                pdf, cdf = pdf_cdf(pi, case["xs"][si][i])
+                v = pdf if fn in ("d", "gms") else cdf
+                if fn in ("d", "gms") and v <= 0:
+                    memo[key] = None
+                elif log:
+                    memo[key] = None if v <= 0 else ("value", float(mpmath.log(v)))
                 else:
-                    v = ref_cdf(fam, p, x)
-                    memo[key] = ("value", float(v)) if not log else (None if v <= 0 else ("value", float(mpmath.log(v))))
+                    memo[key] = ("value", float(v))
         return memo[key]
 
     def real_fn(fn):
